@@ -226,18 +226,46 @@ func cmdCheck(args []string) int {
 	broken := false
 	var confDiv []string
 	detDiff := ""
+	// every (job, shard) worker goes through one pool of *procs slots, so a job whose shards are uneven does not leave
+	// cores idle while the next job waits
+	type jobRun struct {
+		results []*explore.Result
+		errs    []error
+		shards  int
+		start   time.Time
+		end     time.Time
+		skip    bool
+	}
+	runs := make([]*jobRun, len(jobs))
+	slots := make(chan struct{}, *procs)
+	var wgAll sync.WaitGroup
+	var muEnd sync.Mutex
 	for ji, j := range jobs {
+		jr := &jobRun{start: time.Now()}
+		runs[ji] = jr
+		if only := os.Getenv("FXMC_ONLY_JOB"); only != "" && only != j.Name && only != strconv.Itoa(ji) { // development aid
+			jr.skip = true
+			continue
+		}
 		shards := *procs
 		if j.Shards > 0 {
 			shards = j.Shards
 		}
-		results := make([]*explore.Result, shards)
-		errs := make([]error, shards)
-		var wg sync.WaitGroup
+		jr.shards = shards
+		jr.results = make([]*explore.Result, shards)
+		jr.errs = make([]error, shards)
 		for s := 0; s < shards; s++ {
-			wg.Add(1)
-			go func(s int) {
-				defer wg.Done()
+			wgAll.Add(1)
+			go func(ji, s, shards int, jr *jobRun) {
+				defer wgAll.Done()
+				slots <- struct{}{}
+				defer func() {
+					<-slots
+					muEnd.Lock()
+					jr.end = time.Now()
+					muEnd.Unlock()
+				}()
+				results, errs := jr.results, jr.errs
 				// rotate shard numbering by seed: permutes which process explores which subtree, nothing else
 				out := filepath.Join(tmp, fmt.Sprintf("j%d-s%d.json", ji, s))
 				cmd := exec.Command(self, "worker", "--prop", id, "--tier", *tier, "--job", strconv.Itoa(ji),
@@ -259,9 +287,18 @@ func cmdCheck(args []string) int {
 					return
 				}
 				results[s] = &r
-			}(s)
+			}(ji, s, shards, jr)
 		}
-		wg.Wait()
+	}
+	wgAll.Wait()
+	for ji, j := range jobs {
+		jr := runs[ji]
+		if jr.skip {
+			continue
+		}
+		shards, results, errs := jr.shards, jr.results, jr.errs
+		jobStart := jr.start
+		_ = jobStart
 		digs := map[uint64]struct{}{}
 		js := map[string]interface{}{"job": j.Name, "depth": j.Depth, "shards": shards}
 		jt, jexh := 0, true
@@ -330,6 +367,7 @@ func cmdCheck(args []string) int {
 		js["states"] = nstates
 		js["transitions"] = jt
 		js["exhaustive"] = jexh
+		js["finished_after_s"] = float64(int(jr.end.Sub(start).Seconds()*10)) / 10
 		jobSummaries = append(jobSummaries, js)
 	}
 	total.States = states
